@@ -82,7 +82,10 @@ impl DecisionTracker {
         let decision = self.stack.pop().unwrap();
         self.map.reset(decision.variable);
 
-        self.propagate_index = self.stack.len();
+        // Decisions below the one that was undone may not have been propagated yet (e.g. the
+        // rejection of a soft requirement that was recorded right before this run): keep the
+        // cursor where it is unless it pointed past the end of the shortened stack.
+        self.propagate_index = self.propagate_index.min(self.stack.len());
 
         let top_decision = self.stack.last().unwrap();
         (decision, self.map.level(top_decision.variable))
